@@ -21,6 +21,11 @@ def run(ctx):
         "Server kinds: tcp (one server per list, all in one server command) and websocket (two paths, every ordered pair of subsets) exhaustively for "
         "tables of 1-2 channels (thorough: tcp 1-3, websocket 3 channels with seeded pairs); websocket also one client per configuration on a variant of a path (case, prefix, extension, unknown); "
         "unix, udp(KCP), stdio, dns sampled with tables of 1-4 channels; allow-lists naming unknown channels must fail start-up (else judged by the model). "
+        "Degenerate names on the configuration side: (A) tables that contain a channel with the EMPTY name (protocol id '/') - tcp: every ordered table {'',p}/{p,''} over the pool "
+        "with every allow-list in both orders (so [''] = 'only the empty-named channel' stands next to empty = all and to lists without ''), websocket: [''] on one path and a seeded "
+        "list on the other, tcp/unix/udp/stdio/dns sampled with '' at a seeded position of a 3-4 channel table and the lists [''], everything-but-'', all, seeded; "
+        "(B) tables WITHOUT such a channel and allow-lists with blank / white-space entries (one, repeated, mixed with real names at either end) on every server kind and on either "
+        "websocket path: start-up must fail, else the endpoint is judged by the model (a non-empty list exposes exactly the configured names it contains); signatures of both carry the list's shape. "
         "Concurrent family: on configurations with >= 2 exposed channels, bursts of 8 (udp 6, dns 3) simultaneous requests for DIFFERENT allowed names "
         "(every third burst mixed with refused names) on ONE session, through the real client (several listeners -> Upstreams.Connect at once) and through "
         "the raw client (several smux streams at once); per request: the banner it receives and eight bytes it pushes must belong to the target of ITS name "
